@@ -111,7 +111,9 @@ func TestVerifC05(t *testing.T) {
 											continue // multi-period with a non-zero start time is outside the stated quantifier (see DESIGN C06)
 										}
 										k++
-										if quick && (k+len(mpdName))%3 != 0 {
+										// quick: a covering third of the product; the multi-period configuration whose
+										// time-shift window fits inside one period is always kept
+										if quick && (k+len(mpdName))%3 != 0 && !(periods > 0 && tsbd == 10 && stopK == 0 && ato == 0) {
 											continue
 										}
 										var stop int64
